@@ -29,7 +29,7 @@ EXPLANATION = (
     "bounds guard adds or multiplies an unbounded 32-bit value taken from the input before widening it "
     "to the 64-bit size it is compared with (the sum wraps and the guard admits what it exists to refuse); (9) an "
     "element of an array that a decoding call filled is sign-checked (itself, or element-wise in an earlier "
-    "validation loop) before it offsets a pointer or sizes a copy. Decides "
+    "validation loop) before it offsets a pointer or sizes a copy. (10) an indexed read from a table validated as `size >= count * K` stays inside it: read width <= stride <= K (R39, the dictionary decoders); (11) R40 loop cursors as in C06.10. Decides "
     "these clauses, not termination bounds in general, oversized shifts, nor safety inside zlib/zstd.")
 
 DECODER_FILES = ["src/compression/snappy.c", "src/compression/lz4.c", "src/encoding/rle.c",
